@@ -184,6 +184,14 @@ def run(ck, P):
         f = P.fn(name, SRC)
         fnd = narrowing_findings(f, bounded)
         ck.ob("C09.2-CMP-NARROW", f.site("return"), not fnd, "%s: %s" % (name, fnd[0][1] if fnd else "no narrowing subtraction (bounded keys: %s)" % bounded))
+        # key fields are compared in their own type: a floating key (a threshold's frequency) truncated to an integer makes distinct keys equal
+        f2i = [(S(x_.get("e") or {}), ev_.line) for ev_ in f.events() for y_ in (ev_.e, ev_.rhs if ev_.kind in ("decl", "assign") else None) if y_ is not None
+               for x_ in lm.walk(y_) if isinstance(x_, dict) and x_.get("k") in ("icast", "cast") and x_.get("ck") == "FloatingToIntegral"
+               and "_src." in S(x_.get("e") or {})]
+        if f2i:
+            ck.ob("C09.2-CMP-NARROW", f.site("floating key compared as such"), False,
+                  "%s converts the floating key field '%s' to an integer before comparing (line %d): keys that differ only in the fraction compare equal — "
+                  "a new key is refused with -EEXIST, deregistering one removes the other" % (name, f2i[0][0], f2i[0][1]))
 
     # ------------------------------------------------------------------ 3. duplicate => EEXIST, nothing left behind
     ck.rule("C09.3-DUPLICATE", "R-GUARD/R-OWN: in register_mod_src a refused insertion releases the freshly created source and is returned "
